@@ -104,9 +104,10 @@ func (u *Updater) AddInNonWitnessUtxo(inIndex int, tx *transaction.Transaction) 
 	if !bytes.Equal(txid[:], u.Pset.Inputs[inIndex].PreviousTxid) {
 		return ErrInInvalidNonWitnessUtxo
 	}
-	u.Pset.Inputs[inIndex].NonWitnessUtxo = tx
+	p := u.Pset.Copy()
+	p.Inputs[inIndex].NonWitnessUtxo = tx
 
-	return u.Pset.SanityCheck()
+	return u.Pset.publish(p)
 }
 
 // AddInWitnessUtxo adds the utxo information for an input which is witness.
@@ -118,9 +119,10 @@ func (u *Updater) AddInWitnessUtxo(inIndex int, txout *transaction.TxOutput) err
 	if inIndex > int(u.Pset.Global.InputCount)-1 {
 		return ErrInputIndexOutOfRange
 	}
-	u.Pset.Inputs[inIndex].WitnessUtxo = txout
+	p := u.Pset.Copy()
+	p.Inputs[inIndex].WitnessUtxo = txout
 
-	return u.Pset.SanityCheck()
+	return u.Pset.publish(p)
 }
 
 // AddInRedeemScript adds the redeem script information for an input.  The
@@ -131,9 +133,10 @@ func (u *Updater) AddInRedeemScript(inIndex int, redeemScript []byte) error {
 	if inIndex > int(u.Pset.Global.InputCount)-1 {
 		return ErrInputIndexOutOfRange
 	}
-	u.Pset.Inputs[inIndex].RedeemScript = redeemScript
+	p := u.Pset.Copy()
+	p.Inputs[inIndex].RedeemScript = redeemScript
 
-	return u.Pset.SanityCheck()
+	return u.Pset.publish(p)
 }
 
 // AddInWitnessScript adds the witness script information for an input.  The
@@ -144,9 +147,10 @@ func (u *Updater) AddInWitnessScript(inIndex int, witnessScript []byte) error {
 	if inIndex > int(u.Pset.Global.InputCount)-1 {
 		return ErrInputIndexOutOfRange
 	}
-	u.Pset.Inputs[inIndex].WitnessScript = witnessScript
+	p := u.Pset.Copy()
+	p.Inputs[inIndex].WitnessScript = witnessScript
 
-	return u.Pset.SanityCheck()
+	return u.Pset.publish(p)
 }
 
 // AddInBip32Derivation takes a master key fingerprint as defined in BIP32, a
@@ -174,11 +178,12 @@ func (u *Updater) AddInBip32Derivation(
 		}
 	}
 
-	u.Pset.Inputs[inIndex].Bip32Derivation = append(
+	p := u.Pset.Copy()
+	p.Inputs[inIndex].Bip32Derivation = append(
 		u.Pset.Inputs[inIndex].Bip32Derivation, bip32Derivation,
 	)
 
-	return u.Pset.SanityCheck()
+	return u.Pset.publish(p)
 }
 
 // AddInSighashType adds the sighash type information for an input.  The
@@ -191,8 +196,9 @@ func (u *Updater) AddInSighashType(
 		return ErrInputIndexOutOfRange
 	}
 
-	u.Pset.Inputs[inIndex].SigHashType = sighashType
-	return u.Pset.SanityCheck()
+	p := u.Pset.Copy()
+	p.Inputs[inIndex].SigHashType = sighashType
+	return u.Pset.publish(p)
 }
 
 // AddInUtxoRangeProof adds the prevout rangeproof for an input.
@@ -203,8 +209,9 @@ func (u *Updater) AddInUtxoRangeProof(
 		return ErrInputIndexOutOfRange
 	}
 
-	u.Pset.Inputs[inIndex].UtxoRangeProof = proof
-	return u.Pset.SanityCheck()
+	p := u.Pset.Copy()
+	p.Inputs[inIndex].UtxoRangeProof = proof
+	return u.Pset.publish(p)
 }
 
 // AddInExplicitAsset adds the unconfidential asset hash and related blinding
@@ -231,9 +238,10 @@ func (u *Updater) AddInExplicitAsset(inIndex int, asset, proof []byte) error {
 		)
 	}
 
-	u.Pset.Inputs[inIndex].ExplicitAsset = asset
-	u.Pset.Inputs[inIndex].AssetProof = proof
-	return u.Pset.SanityCheck()
+	p := u.Pset.Copy()
+	p.Inputs[inIndex].ExplicitAsset = asset
+	p.Inputs[inIndex].AssetProof = proof
+	return u.Pset.publish(p)
 }
 
 // AddInExplicitValue adds the unconfidential value and related blinding proof
@@ -260,9 +268,10 @@ func (u *Updater) AddInExplicitValue(inIndex int, value uint64, proof []byte) er
 		)
 	}
 
-	u.Pset.Inputs[inIndex].ExplicitValue = value
-	u.Pset.Inputs[inIndex].ValueProof = proof
-	return u.Pset.SanityCheck()
+	p := u.Pset.Copy()
+	p.Inputs[inIndex].ExplicitValue = value
+	p.Inputs[inIndex].ValueProof = proof
+	return u.Pset.publish(p)
 }
 
 // AddInIssuanceArgs is a struct encapsulating all the issuance data that
@@ -573,8 +582,9 @@ func (u *Updater) AddInTapInternalKey(inIndex int, internalKey []byte) error {
 		return ErrInDuplicatedField("tap internal key")
 	}
 
-	u.Pset.Inputs[inIndex].TapInternalKey = internalKey
-	return u.Pset.SanityCheck()
+	p := u.Pset.Copy()
+	p.Inputs[inIndex].TapInternalKey = internalKey
+	return u.Pset.publish(p)
 }
 
 // AddInTapMerkleRoot adds the taproot tree root to the input at index inIndex.
@@ -588,8 +598,9 @@ func (u *Updater) AddInTapMerkleRoot(inIndex int, tapMerkleRoot []byte) error {
 		return ErrInDuplicatedField("tap merkle root")
 	}
 
-	u.Pset.Inputs[inIndex].TapMerkleRoot = tapMerkleRoot
-	return u.Pset.SanityCheck()
+	p := u.Pset.Copy()
+	p.Inputs[inIndex].TapMerkleRoot = tapMerkleRoot
+	return u.Pset.publish(p)
 }
 
 // AddInTapLeafScript adds TapLeafScript to the input at index inIndex.
@@ -658,11 +669,12 @@ func (u *Updater) AddOutBip32Derivation(
 		}
 	}
 
-	u.Pset.Outputs[outIndex].Bip32Derivation = append(
+	p := u.Pset.Copy()
+	p.Outputs[outIndex].Bip32Derivation = append(
 		u.Pset.Outputs[outIndex].Bip32Derivation, bip32Derivation,
 	)
 
-	return u.Pset.SanityCheck()
+	return u.Pset.publish(p)
 }
 
 // AddOutRedeemScript takes a redeem script as a byte slice and appends it to
@@ -672,8 +684,9 @@ func (u *Updater) AddOutRedeemScript(outIndex int, redeemScript []byte) error {
 		return ErrOutputIndexOutOfRange
 	}
 
-	u.Pset.Outputs[outIndex].RedeemScript = redeemScript
-	return u.Pset.SanityCheck()
+	p := u.Pset.Copy()
+	p.Outputs[outIndex].RedeemScript = redeemScript
+	return u.Pset.publish(p)
 }
 
 // AddOutWitnessScript takes a witness script as a byte slice and appends it to
@@ -683,8 +696,9 @@ func (u *Updater) AddOutWitnessScript(outIndex int, witnessScript []byte) error 
 		return ErrOutputIndexOutOfRange
 	}
 
-	u.Pset.Outputs[outIndex].WitnessScript = witnessScript
-	return u.Pset.SanityCheck()
+	p := u.Pset.Copy()
+	p.Outputs[outIndex].WitnessScript = witnessScript
+	return u.Pset.publish(p)
 }
 
 // addPartialSignature allows the Updater role to insert fields of type partial
@@ -812,11 +826,12 @@ func (u *Updater) addPartialSignature(inIndex int, sig, pubkey []byte) error {
 		return ErrInvalidPsbtFormat
 	}
 
-	u.Pset.Inputs[inIndex].PartialSigs = append(
+	p := u.Pset.Copy()
+	p.Inputs[inIndex].PartialSigs = append(
 		u.Pset.Inputs[inIndex].PartialSigs, partialSig,
 	)
 
-	return u.Pset.SanityCheck()
+	return u.Pset.publish(p)
 }
 
 // nonWitnessToWitness extracts the TxOut from the existing NonWitnessUtxo
